@@ -101,6 +101,62 @@ func c09(r *Report) {
 	})
 
 	r.Guard("C09.R2", "a frame is emitted only when it fits both windows, and both windows are then reduced by its flow-controlled size", func() {
+		// SETTINGS_INITIAL_WINDOW_SIZE moves every open stream's window by (new - old), and an
+		// update adds its increment: the operators and their operand order
+		if ui := r.Use("h2", "relay.updateInitialWindowSize"); ui != nil {
+			isOld := func(v ssa.Value) bool {
+				return anyIn(w.backSlice(v, flowOpt{}), func(x ssa.Value) bool {
+					fa, y := x.(*ssa.FieldAddr)
+					return y && fieldObj(fa).Name() == "initialWindowSize"
+				})
+			}
+			isNew := func(v ssa.Value) bool {
+				return anyIn(w.backSlice(v, flowOpt{}), func(x ssa.Value) bool { return len(ui.Params) > 1 && x == ssa.Value(ui.Params[1]) })
+			}
+			var delta ssa.Value
+			nsub := 0
+			for _, in := range instrs(ui) {
+				b, ok := in.(*ssa.BinOp)
+				if !ok || (b.Op != token.SUB && b.Op != token.ADD) {
+					continue
+				}
+				if (isNew(b.X) && isOld(b.Y)) || (isOld(b.X) && isNew(b.Y)) {
+					nsub++
+					if b.Op == token.SUB && isNew(b.X) && isOld(b.Y) && !isOld(b.X) {
+						delta = b
+					}
+				}
+			}
+			r.Decide("flow", "(*M/h2.relay).updateInitialWindowSize: the adjustment is new minus old", delta != nil && nsub == 1, "delta = int(v) - int(r.initialWindowSize)", "the stream windows are moved by something other than (new initial size - old initial size): after a SETTINGS change the relay believes in more (or less) credit than the receiver granted", ui.Pos())
+			okAdd := false
+			for _, in := range instrs(ui) {
+				st, ok := in.(*ssa.Store)
+				if !ok {
+					continue
+				}
+				fa, ok := st.Addr.(*ssa.FieldAddr)
+				if !ok || fieldObj(fa).Name() != "windowSize" {
+					continue
+				}
+				if b, isB := st.Val.(*ssa.BinOp); isB && b.Op == token.ADD && delta != nil && (b.X == delta || b.Y == delta) {
+					other := b.X
+					if b.X == delta {
+						other = b.Y
+					}
+					if ld, isLd := other.(*ssa.UnOp); isLd && ld.X == ssa.Value(fa) || func() bool {
+						ld, isLd := other.(*ssa.UnOp)
+						if !isLd {
+							return false
+						}
+						fa2, isFa := ld.X.(*ssa.FieldAddr)
+						return isFa && fieldObj(fa2) == fieldObj(fa) && fa2.X == fa.X
+					}() {
+						okAdd = true
+					}
+				}
+			}
+			r.Decide("flow", "(*M/h2.relay).updateInitialWindowSize: every stream window is moved by the adjustment", okAdd, "w.windowSize += delta", "the stream windows are not increased by the adjustment", ui.Pos())
+		}
 		// a stream seen for the first time starts with exactly the receiver's current initial
 		// window size, whatever it is (zero included: SETTINGS_INITIAL_WINDOW_SIZE=0 means
 		// "send nothing until I say so")
@@ -331,6 +387,38 @@ func c09(r *Report) {
 // attempt (shared by C09.R4 and C08.R8).
 func flowWakeRules(r *Report) {
 	w := r.W
+	// a frame put on a stream's queue is followed by an emission attempt: without it a
+	// HEADERS or RST_STREAM frame waits until some window update happens to arrive
+	{
+		n := 0
+		for _, f := range w.Funcs("h2") {
+			if fnName(f) == "(*M/h2.outputBuffer).enqueue" {
+				continue
+			}
+			for _, c := range plainCalls(f, "(*M/h2.outputBuffer).enqueue", "(*container/list.List).PushBack") {
+				buf := c.Call.Args[0]
+				if calleeName(c) == "(*container/list.List).PushBack" {
+					// the helper written out: w.queue.PushBack(f)
+					fa, isFa := buf.(*ssa.FieldAddr)
+					if !isFa || fieldObj(fa).Name() != "queue" || namedOf(fa.X.Type()) != "outputBuffer" {
+						continue
+					}
+					buf = fa.X
+				}
+				n++
+				g := G(f)
+				isEmit := func(i ssa.Instruction) bool {
+					e, ok := isCall(i, "(*M/h2.outputBuffer).emitEligibleFrames")
+					return ok && e.Common().Args[0] == buf
+				}
+				p := g.PathTo([]ssa.Instruction{c}, false, isEmit, func(i ssa.Instruction) bool { return isReturn(i) })
+				r.Decide("path", fnName(f)+": a queued frame is followed by an emission attempt on its buffer", p == nil, "emitEligibleFrames on the same buffer lies on every path from enqueue to the return", "a frame is queued without an emission attempt: although both windows are open it is not sent until an unrelated window update or SETTINGS frame arrives (for ever, on a quiet connection)", c.Pos())
+			}
+		}
+		if n < 2 {
+			r.Undecided("M/h2: enqueue sites", fmt.Sprintf("UNRESOLVED: %d found, want 2 (data, enqueueFrame)", n))
+		}
+	}
 	pf := r.Use("h2", "relay.processFrame")
 	if pf == nil {
 		return
@@ -605,6 +693,7 @@ func windowFitRules(r *Report, emit *ssa.Function) ([]sendPoint, bool) {
 // (shared by C09.R5 and C08.R8).
 func frameSizeRules(r *Report) {
 	w := r.W
+	chunkingRules(r)
 	for _, name := range []string{"relay.data", "relay.header", "relay.pushPromise"} {
 		f := r.Use("h2", name)
 		if f == nil {
@@ -818,4 +907,185 @@ func creditOnAllPathsRule(r *Report, swu *ssa.Function) {
 		}
 		r.Decide("path", fmt.Sprintf("(*M/h2.relay).sendWindowUpdates: WriteWindowUpdate#%d precedes every successful return", k+1), !skipped, "every path that returns nil wrote this update", "sendWindowUpdates can return success without having written this WINDOW_UPDATE (an early return for some streams): the credit for DATA the relay accepted is never given back", wc.Pos())
 	}
+}
+
+// clampOf recognises v as min(len(x), p) for an int parameter p of f: a phi of
+// the two whose choice is made by a comparison of the two, the parameter being
+// chosen on the edge where the length exceeds (or reaches) it. Returns the
+// length value and the parameter.
+func clampOf(f *ssa.Function, v ssa.Value) (ssa.Value, *ssa.Parameter, bool) {
+	ph, ok := unwrapConv(v).(*ssa.Phi)
+	if !ok || len(ph.Edges) != 2 {
+		return nil, nil, false
+	}
+	var L ssa.Value
+	var P *ssa.Parameter
+	for _, e := range ph.Edges {
+		e = unwrapConv(e)
+		if p, isP := e.(*ssa.Parameter); isP {
+			P = p
+		} else if c, isC := e.(*ssa.Call); isC {
+			if b, isB := c.Call.Value.(*ssa.Builtin); isB && b.Name() == "len" {
+				L = e
+			}
+		}
+	}
+	if L == nil || P == nil {
+		return nil, nil, false
+	}
+	for k, e := range ph.Edges {
+		pred := ph.Block().Preds[k]
+		// find the If whose edge leads (only) to this pred / this phi edge
+		var iff *ssa.If
+		taken := false
+		if i, isIf := pred.Instrs[len(pred.Instrs)-1].(*ssa.If); isIf {
+			iff, taken = i, pred.Succs[0] == ph.Block()
+		} else if len(pred.Preds) == 1 {
+			pp := pred.Preds[0]
+			if i, isIf := pp.Instrs[len(pp.Instrs)-1].(*ssa.If); isIf {
+				iff, taken = i, pp.Succs[0] == pred
+			}
+		}
+		if iff == nil {
+			return nil, nil, false
+		}
+		b, isB := iff.Cond.(*ssa.BinOp)
+		if !isB {
+			return nil, nil, false
+		}
+		x, y := unwrapConv(b.X), unwrapConv(b.Y)
+		op := b.Op
+		if x == ssa.Value(P) && y == L {
+			// p op len  ==  len op' p
+			x, y = y, x
+			switch op {
+			case token.LSS:
+				op = token.GTR
+			case token.LEQ:
+				op = token.GEQ
+			case token.GTR:
+				op = token.LSS
+			case token.GEQ:
+				op = token.LEQ
+			}
+		}
+		if x != L || y != ssa.Value(P) {
+			return nil, nil, false
+		}
+		// relation between len and p that holds on this edge
+		exceeds := false // len > p or len >= p
+		switch op {
+		case token.GTR, token.GEQ:
+			exceeds = taken
+		case token.LSS, token.LEQ:
+			exceeds = !taken
+		default:
+			return nil, nil, false
+		}
+		isParam := unwrapConv(e) == ssa.Value(P)
+		if isParam != exceeds {
+			return nil, nil, false
+		}
+	}
+	return L, P, true
+}
+
+// chunkingRules: splitIntoChunks cuts a header block into a first chunk of at
+// most firstChunkMax and further chunks of at most continuationMax octets,
+// every octet once: each chunk's length is min(len(rest), limit), the chunk is
+// a copy of the front of the rest, it is appended to the result, and the rest
+// is advanced by exactly that length - in the loop, on every iteration.
+func chunkingRules(r *Report) {
+	f := r.Use("h2", "splitIntoChunks")
+	if f == nil {
+		return
+	}
+	var mks []*ssa.MakeSlice
+	for _, in := range instrs(f) {
+		if mk, ok := in.(*ssa.MakeSlice); ok && mk.Type().String() == "[]byte" {
+			mks = append(mks, mk)
+		}
+	}
+	if len(mks) != 2 {
+		r.Undecided("M/h2.splitIntoChunks: chunk allocations", fmt.Sprintf("UNRESOLVED: %d found, want 2 (first chunk, continuation chunks)", len(mks)))
+		return
+	}
+	limits := map[string]bool{}
+	for k, mk := range mks {
+		name := fmt.Sprintf("M/h2.splitIntoChunks: chunk #%d", k+1)
+		L, P, ok := clampOf(f, mk.Len)
+		r.Decide("flow", name+" is as long as what is left, at most its limit", ok, "length = min(len(rest), limit): the limit is chosen exactly when the rest exceeds it", "the chunk length is not the minimum of the remaining octets and the frame-size limit: a header block longer than one frame is cut into a frame the receiver must reject, or octets are lost", mk.Pos())
+		if !ok {
+			continue
+		}
+		limits[P.Name()] = true
+		rest := L.(*ssa.Call).Call.Args[0]
+		// copied from the front of the rest, appended, and the rest advanced by the same length
+		copied, appended, advanced := false, false, false
+		for _, in := range instrs(f) {
+			switch x := in.(type) {
+			case *ssa.Call:
+				b, isB := x.Call.Value.(*ssa.Builtin)
+				if !isB {
+					continue
+				}
+				if b.Name() == "copy" && sameSlice(x.Call.Args[0], mk) {
+					if sl, isSl := x.Call.Args[1].(*ssa.Slice); isSl && sl.X == rest && sl.Low == nil && sl.High != nil && unwrapConv(sl.High) == unwrapConv(mk.Len) && blockDominates(mk.Block(), x.Block()) {
+						copied = true
+					}
+				}
+				if b.Name() == "append" && len(x.Call.Args) == 2 && blockDominates(mk.Block(), x.Block()) {
+					for _, l := range resolveAll(x.Call.Args[1]) {
+						if sl, isSl := l.(*ssa.Slice); isSl {
+							if a, isA := sl.X.(*ssa.Alloc); isA {
+								for _, st := range allStoresInto(a) {
+									if sameSlice(st.Val, mk) {
+										appended = true
+									}
+								}
+							}
+						}
+					}
+				}
+			case *ssa.Slice:
+				if x.X == rest && x.High == nil && x.Low != nil && unwrapConv(x.Low) == unwrapConv(mk.Len) && blockDominates(mk.Block(), x.Block()) {
+					advanced = true
+				}
+			}
+		}
+		r.Decide("flow", name+" is a copy of the front of what is left", copied, "copy(chunk, rest[:n])", "the chunk is not filled from the front of the remaining octets", mk.Pos())
+		r.Decide("flow", name+" is appended to the result", appended, "chunks = append(chunks, chunk)", "the chunk is built but not returned: its octets are missing from the header block the peer receives", mk.Pos())
+		r.Decide("flow", name+": what is left is advanced by the chunk's length", advanced, "rest = rest[n:]", "the remainder is not advanced by exactly the chunk's length: octets are repeated, skipped, or the loop never ends on a block longer than one frame", mk.Pos())
+	}
+	r.Decide("table", "M/h2.splitIntoChunks: the first chunk and the continuation chunks use their own limits", limits["firstChunkMax"] && limits["continuationMax"] || len(limits) == 2, "two distinct limit parameters", "both chunk kinds are cut by the same limit: the first chunk (which shares its frame with other fields) can exceed the frame size", f.Pos())
+}
+
+func sameSlice(v ssa.Value, mk *ssa.MakeSlice) bool {
+	for _, l := range resolveAll(v) {
+		if l == ssa.Value(mk) {
+			return true
+		}
+	}
+	return false
+}
+
+// allStoresInto lists the stores whose address is an element of the array a
+// (the backing array go/ssa builds for a variadic argument list).
+func allStoresInto(a *ssa.Alloc) []*ssa.Store {
+	var out []*ssa.Store
+	if a.Referrers() == nil {
+		return nil
+	}
+	for _, u := range *a.Referrers() {
+		ia, ok := u.(*ssa.IndexAddr)
+		if !ok || ia.Referrers() == nil {
+			continue
+		}
+		for _, uu := range *ia.Referrers() {
+			if st, ok := uu.(*ssa.Store); ok && st.Addr == ssa.Value(ia) {
+				out = append(out, st)
+			}
+		}
+	}
+	return out
 }
